@@ -21,7 +21,7 @@ CHECKS = {
         technique="TLA+ decision contract (Decision.tla) evaluated by TLC on recorded calls of the real policies",
     ),
     "C11": dict(
-        text="PlanRules.tla: PrecedenceOK on (T1) the plans returned by ILP / TetriSched-Gurobi / Z3 for chains, forks, joins, diamonds offered wholly, partly or with running / scheduled parents, (T2) every solution of the captured optimisation model's solution pool, and (R) TLC enumerates the plans violating ONLY precedence inside the horizon and each must be infeasible when fixed in the captured model.",
+        text="PlanRules.tla: PrecedenceOK on (T1) the plans returned by ILP / TetriSched-Gurobi / Z3 for chains, forks, joins, diamonds offered wholly, partly or with running / scheduled parents, (T2) every solution of the captured optimisation model's solution pool, and (R) TLC enumerates the plans violating ONLY precedence inside the horizon and each must be infeasible when fixed in the captured model; instance classes incl. co-offered predecessors that fit no worker (type missing, too large, held by running / scheduled work, hopeless deadline), multi-instance workers and mixed EventTime units.",
         design_ref="DESIGN.md §5 C11",
         note="trusted: TLC, mapping of solver variable names to tasks, Gurobi/z3 for feasibility of fixed plans; pool capped, horizon-bounded",
         technique="TLA+ planning rules (PlanRules.tla) checked by TLC on returned plans, model solution pools and spec-enumerated violating plans fixed in the real solver model",
@@ -33,15 +33,15 @@ CHECKS = {
         technique="TLA+ planning rules (PlanRules.tla) checked by TLC on returned plans, model solution pools, spec-enumerated late plans fixed in the real solver model, and end-to-end traces",
     ),
     "C14": dict(
-        text="PlanSpace.tla is a state machine whose reachable states are the feasible partial plans of one instance in the planner's own decision space; for a recorded ILP answer TLC searches (branch and bound via CONSTRAINT) for a plan with more goodput (C14_NoBetterPlan, the counterexample is the better plan), for TetriSched answers it checks one-step maximality (C14_Maximal); the decision space is cross-checked against the captured Gurobi model by fixing every syntactic plan.",
+        text="PlanSpace.tla is a state machine whose reachable states are the feasible partial plans of one instance in the planner's own decision space; for a recorded ILP answer TLC searches (branch and bound via CONSTRAINT) for a plan with more goodput (C14_NoBetterPlan, the counterexample is the better plan), for TetriSched answers it checks one-step maximality (C14_Maximal); the decision space (capacity of a resource name = sum over the worker's instances, pinned units on their instance) is cross-checked against the captured Gurobi model by fixing every syntactic plan.",
         design_ref="DESIGN.md §5 C14",
         note="trusted: TLC, instance encoding; bound: <=4 offered tasks, <=2 workers, <=2 strategies, horizon <=12, discretisation 1-3",
         technique="TLA+ plan-space state machine (PlanSpace.tla) model-checked per recorded (instance, answer) of the real planners",
     ),
     "C15": dict(
-        text="Clockwork.tla transcribes the policy (per-model per-strategy deadline-sorted queues, admission, expiry, batch extraction, inference loop, both goals); invariants full batch / same model / loaded / fits / on time / placed once / late cancelled are model-checked over all small arrival histories; the dumped state graphs and -simulate behaviours are replayed on a live ClockworkScheduler kept across schedule() calls (exact batch equality), and seeded random histories are record-checked by TLC.",
+        text="Clockwork.tla transcribes the policy (per-model per-strategy deadline-sorted queues, admission, expiry, batch extraction, inference loop, both goals); invariants full batch / same model / loaded / fits / on time / placed once / late cancelled are model-checked over all small arrival histories; the dumped state graphs and -simulate behaviours are replayed on a live ClockworkScheduler kept across schedule() calls (exact batch equality), and seeded random histories are record-checked by TLC; model loading / eviction (--scheduler_run_load) is transcribed with the priority order left free: a batch must be placed where its model is loaded AFTER the answer's own evictions, loads fit the memory left (load_target, load_fits), bound by non-deterministic graph walks and random memory-tight histories on the live policy.",
         design_ref="DESIGN.md §5 C15",
-        note="trusted: TLC, the harness applying placements as simulator.py does; run_load (profile loading/eviction) not covered",
+        note="trusted: TLC, the harness applying placements / loads / evictions as simulator.py does; model memory is a resource type of its own, one loading strategy per model",
         technique="TLA+ state machine (Clockwork.tla) model-checked with TLC + spec->code replay on the live policy + record validation",
     ),
     "C20": dict(
@@ -51,7 +51,7 @@ CHECKS = {
         technique="TLA+ semantics of STRL (Strl.tla) checked by TLC against models compiled by the real C++ library and their read-back solutions",
     ),
     "C13": dict(
-        text="Greedy.tla defines Plan(kind, instance) (stable sort by the policy key, first fit over strategies x pools) and NoInversion; TLC proves NoInversion(Plan) for every instance of a small bound (each instance an initial state); the same instances and larger random ones are built as real tasks / single-worker pools and given to the real EDF/FIFO/LSF schedulers, whose answers TLC judges with NoInversion (and compares with Plan).",
+        text="Greedy.tla defines Plan(kind, instance) (stable sort by the policy key, first fit over strategies x pools) and NoInversion; TLC proves NoInversion(Plan) for every instance of a small bound (each instance an initial state); the same instances and larger random ones are built as real tasks / single-worker pools - every time in its own EventTime unit (US/MS/S), workers listing a resource name under one or two ids, the realisation read back and checked by TLC (RealisationOK) - and given to the real EDF/FIFO/LSF schedulers, whose answers TLC judges with NoInversion (and compares with Plan).",
         design_ref="DESIGN.md §5 C13",
         note="trusted: TLC, instance encoding; gating bound = single-worker pools as the property's observation note says; multi-worker pools explored in thorough, notes only",
         technique="TLA+ algorithm spec (Greedy.tla) model-checked over all small instances + call-record validation of the real greedy policies",
